@@ -206,6 +206,24 @@ def flag_lists(ctx, violations):
     return {"strings": n, "mismatches": bad, "verdicts": hist}
 
 
+def model_positions(ctx, combos):
+    """combos: (flags before the sub-command, flags after it) as argv fragments -> what Feat.command_line says for each:
+    True (on), False (off), None (refused).  The value of an argv fragment: ['-f', V] / ['--features', V] / ['--features=V'] / []."""
+    def val(fr):
+        if not fr:
+            return None
+        if len(fr) == 1:
+            return fr[0].split("=", 1)[1]
+        return fr[1]
+    cases = []
+    for pre, post in combos:
+        a, b = val(pre), val(post)
+        nums = [0 if a is None else 1, len(a or "")] + [ord(c) for c in (a or "")] + [0 if b is None else 1, len(b or "")] + [ord(c) for c in (b or "")]
+        cases.append("FEAT2 " + " ".join(f"{x:x}" for x in nums))
+    res = ctx.run_model(cases, tag="c18pos")
+    return [{0: False, 1: True, 2: None}[int(r[0].split()[0], 16)] for r in res]
+
+
 def cli_flag(ctx, violations):
     """The flag as users give it (the real binary, hooks off): the feature is on exactly when `stack` is among the
     comma-separated elements of -f / --features, however the list is written; then the extension source checks, compiles to
@@ -273,7 +291,11 @@ def cli_flag(ctx, violations):
                                    "check_output": text[-300:]})
     # the flag written BEFORE the sub-command (`lace -f stack run FILE`): clap accepts it there, so it must take effect there
     # (or the command line be refused) - the extension on exactly as when the flag follows the sub-command
-    for pre, on in ((["-f", "stack"], True), (["--features", "stack"], True), (["--features=stack"], True), (["-f", ""], False), (["-f", "heap"], None)):
+    before = [(["-f", "stack"], True), (["--features", "stack"], True), (["--features=stack"], True), (["-f", ""], False), (["-f", "heap"], None)]
+    mo = model_positions(ctx, [(pre, []) for pre, _ in before])
+    if mo != [on for _, on in before]:
+        raise RuntimeError("C18: the model (Feat.command_line) disagrees with the designed expectations for the flag before the sub-command: %r" % (mo,))
+    for pre, on in before:
         obs = {}
         for sub, tail in (("check", ["s.asm"]), ("compile", ["s.asm", "pre.lc3"]), ("run", ["s.asm", "--minimal"]), ("run", ["simg.lc3", "--minimal"]),
                           ("debug", ["s.asm", "--minimal", "--command", "continue"])):
@@ -291,15 +313,18 @@ def cli_flag(ctx, violations):
                                        "feature_expected_on": on, "stderr": se_p.decode("utf-8", "replace")[-300:],
                                        "note": "the same flag after the sub-command switches the extension on"})
     # the flag in BOTH positions of one command line (before and after the sub-command): the extension is on when either says so
-    for pre, post, on in ((["-f", "stack"], ["-f", "stack"], True), (["-f", "stack"], ["-f", ""], True), (["-f", ""], ["-f", "stack"], True),
-                          (["--features=stack"], ["--features", "stack"], True), (["-f", ""], ["-f", ""], False), (["-f", ","], ["-f", "stack,"], True)):
+    both = [(["-f", "stack"], ["-f", "stack"]), (["-f", "stack"], ["-f", ""]), (["-f", ""], ["-f", "stack"]),
+            (["--features=stack"], ["--features", "stack"]), (["-f", ""], ["-f", ""]), (["-f", ","], ["-f", "stack,"]),
+            (["-f", "stack"], ["-f", "heap"]), (["-f", "Stack"], ["-f", "stack"]), (["-f", "stack,stack"], [])]
+    both_on = model_positions(ctx, both)                 # the expectation comes from the model: Feat.command_line (C18_flag_positions)
+    for (pre, post), on in zip(both, both_on):
         for sub, tail in (("check", ["s.asm"]), ("compile", ["s.asm", "both.lc3"]), ("run", ["s.asm", "--minimal"]), ("run", ["simg.lc3", "--minimal"]),
                           ("run", ["raw.lc3", "--minimal"]), ("debug", ["s.asm", "--minimal", "--command", "continue"])):
             if os.path.exists(os.path.join(d, "both.lc3")):
                 os.remove(os.path.join(d, "both.lc3"))
             rc_p, so_p, se_p = clicommon.run_cli(exe, pre + [sub] + tail + post, d)
             runs += 1
-            want = 0 if on else 1
+            want = 2 if on is None else (0 if on else 1)
             if rc_p != want:
                 bad += 1
                 if bad <= 6:
